@@ -22,7 +22,11 @@ for m in sorted(glob.glob(os.path.join(V, "seeded", "*", "meta.json"))):
             if line and not line.startswith("#"):
                 what = line[:220]
                 break
-    rows.append((name, d["property"], "caught" if d["check"]["caught"] else "MISSED", viol, shape[:160], what))
+    by = d["check"].get("caught_by") or d["property"]
+    verdict = "caught" if d["check"]["caught"] else "MISSED"
+    if d["check"]["caught"] and by != d["property"]:
+        verdict = f"caught by {by}"
+    rows.append((name, d["property"], verdict, viol, shape[:160], what))
 out = ["# Independently seeded changes", "",
        "Each change was written by a fresh sub-agent that saw only the property text and its own scratch worktree of /repo,",
        "confirmed by `bin/seedcheck` (demonstration passes without the change and fails with it; the existing suite passes with it),",
@@ -30,7 +34,14 @@ out = ["# Independently seeded changes", "",
        "| id | property | check | failing clause | minimised scenario | change (first line of its README) |", "|---|---|---|---|---|---|"]
 for r in rows:
     out.append("| " + " | ".join(x.replace("|", "\\|") for x in r) + " |")
-caught = sum(1 for r in rows if r[2] == "caught")
-out += ["", f"{caught} of {len(rows)} caught."]
+caught = sum(1 for r in rows if r[2].startswith("caught"))
+out += ["", f"{caught} of {len(rows)} caught.", "",
+        "\"caught by Cxx\": the change only manifests through operations that lie outside the scope of the property it was aimed at",
+        "(e.g. resize for C01, whose statement is about a pool whose max_size is not being changed); the check of the property that owns",
+        "those operations reports it.", "",
+        "Not kept: r2_C12_3 (the existing suite fails with the change applied).",
+        "Missed: r2_C05_3 - `Object::take` adds the slot permit before decrementing `size`, so `status().size` can exceed `max_size` while one thread",
+        "is inside `take()`. No object is lost or duplicated, the pool never physically holds more than max_size objects and status() is exact at rest,",
+        "which is all C05 states; the transient counter value is not judged by any clause."]
 open(os.path.join(V, "seeded", "SUMMARY.md"), "w").write("\n".join(out) + "\n")
 print(f"{caught}/{len(rows)} caught")
